@@ -122,8 +122,11 @@ func fnMetrics(v *FnVector) map[string]interface{} {
 			r := &edsv1.ExtendedDaemonSetReplicaSet{ObjectMeta: meta}
 			r.Status.Desired, r.Status.Current, r.Status.Ready = int32(v.Status["desired"]), int32(v.Status["current"]), int32(v.Status["ready"])
 			r.Status.Available, r.Status.IgnoredUnresponsiveNodes = int32(v.Status["available"]), int32(v.Status["ignored"])
-			if v.Flags["failed"] {
+			switch {
+			case v.Flags["failed"] || v.CPaused == "true":
 				r.Status.Conditions = append(r.Status.Conditions, edsv1.ExtendedDaemonSetReplicaSetCondition{Type: edsv1.ConditionTypeCanaryFailed, Status: "True"})
+			case v.CPaused == "false":
+				r.Status.Conditions = append(r.Status.Conditions, edsv1.ExtendedDaemonSetReplicaSetCondition{Type: edsv1.ConditionTypeCanaryFailed, Status: "False", Reason: "Manually failed"})
 			}
 			fams, obj = ersctrl.VerifMetricFamilies(), r
 		}
